@@ -117,10 +117,11 @@ the outcome reported by `on_pipeline_complete` is the output's value or an error
 theorem C14_switch_reports_are_truthful (P : Program) (val : Node → Option Val) (hsw : SwP P)
     (hsol : SolutionSw P val) (s : St) (log : List Obs) (h : Exec P s log) :
     (∀ n, Obs.ncomplete n none ∈ log → (val n).isSome = true) ∧
-    (∀ n e, Obs.ncomplete n (some e) ∈ log → (∃ k, P.body n (kwFrom P val n) 0 k = .raise e) ∨ CollabFails P e) ∧
+    (∀ n e, Obs.ncomplete n (some e) ∈ log → (∃ k, P.body n (kwFrom P val n) 0 k = .raise e) ∨ CollabFails P e ∨
+      (ErrCause P val e ∧ val n = none)) ∧
     (∀ v, Obs.pcomplete (.value v) ∈ log → val P.g.output = some v) ∧
     (∀ e, Obs.pcomplete (.error e) ∈ log → ErrCause P val e) := by
-  have hall := (safe_exec hsw hsol h).2
-  exact ⟨fun n hm => hall _ hm, fun n e hm => hall _ hm, fun v hm => hall _ hm, fun e hm => hall _ hm⟩
+  have hall := (safe_exec_sw hsw hsol h).2
+  exact ⟨fun n hm => hall _ hm, fun n e hm => hall _ hm, fun v hm => outcome_value_sw hsw (hall _ hm), fun e hm => hall _ hm⟩
 
 end MLPE.Eng
